@@ -1,3 +1,15 @@
 // ---- verify_lookup: the acceptance predicates are those of verify_base (same file included)
 pub open spec fn plog(v: u64) -> u64 { 1u64 << ((63 - vstd::std_specs::bits::u64_leading_zeros(v)) as u64) }
 pub mod utils { pub(crate) use super::get_marker_version_log2; }
+
+// Meaning step for C06 (spec level): in an honestly maintained tree the label has fresh leaves exactly for versions 1..=n and stale leaves
+// exactly for versions 1..n-1. A lookup proof accepted for version v shows fresh(v) present and stale(v) absent: only v == n qualifies.
+// (VRF uniqueness and collision resistance turn the accepted sub-proofs into "present" / "absent": unit trie_lemmas, and T4.)
+// alarm: C06
+pub proof fn lemma_lookup_pins_latest(v: u64, n: u64)
+    requires
+        1 <= v, 1 <= n,
+        1 <= v <= n,          // fresh(v) present
+        !(1 <= v < n),        // stale(v) absent
+    ensures v == n
+{}
